@@ -576,7 +576,24 @@ impl Check for C01Check {
         } else {
             None
         };
-        simcore::driver::run_on_stack(2 << 20, "C01", || run_on_caller_stack(scenario, stats))
+        {
+            let env_mode = {
+                // environment seam: in half of the scenarios variables that the real environment does
+                // not define are nevertheless present when code asks for them (see senv.rs)
+                let mut h = simcore::H64::new();
+                h.str(&scenario.to_string());
+                let v = h.finish();
+                if v & 1 == 0 { Some(v) } else { None }
+            };
+            simcore::driver::run_on_stack(2 << 20, "C01", || {
+                crate::senv::set_env_schedule(env_mode);
+                let out = run_on_caller_stack(scenario, stats);
+                if crate::senv::set_env_schedule(None) > 0 {
+                    stats.probe("code_under_test_asked_for_an_undefined_environment_variable");
+                }
+                out
+            })
+        }
     }
 
     fn shrink(&self, _scenario: &Value) -> Vec<Value> {
